@@ -390,6 +390,18 @@ def run_command(world, cmd, probe=None):
     return outcome_of(common.in_child(_child_command, world, cmd, probe))
 
 
+def _child_clearcache(world, user):
+    """`eups admin clearCache` of one user (the CLI calls eups.app.clearCache(inUserDir=True))"""
+    _quiet_fds()
+    os.environ["EUPS_PATH"] = ":".join(world.stacks)
+    os.environ["EUPS_USERDATA"] = world.uds[user]
+    events = []
+    _install_audit(events)
+    import eups.app
+    eups.app.clearCache(inUserDir=True)
+    return {"events": [x for x in events if x]}
+
+
 def _child_read(world):
     """Fresh reader through eups.db.Database only (no Eups instance, hence no cache traffic)."""
     _quiet_fds()
@@ -463,8 +475,11 @@ def gen_history(rng, ncmds, users=("A",), crash=0.0, rmcache=0.0, query=0.0, noa
         user = rng.choice(users)
         r = rng.random()
         if r < rmcache:
-            cmds.append({"op": "rmcache", "user": rng.choice(users), "stack": rng.randrange(NSTACKS),
-                         "flavor": rng.choice(FLAVS)})
+            if rng.random() < 0.25:
+                cmds.append({"op": "clearcache", "user": rng.choice(users)})
+            else:
+                cmds.append({"op": "rmcache", "user": rng.choice(users), "stack": rng.randrange(NSTACKS),
+                             "flavor": rng.choice(FLAVS)})
             continue
         f = "generic" if rng.random() < pgen else "Linux"
         if r < rmcache + query:
@@ -579,6 +594,12 @@ def run_history(case, hash_noaction=True, probe=None, world_hook=None):
                 rec["out"] = "ok"
                 if os.path.exists(p):
                     os.remove(p)
+            elif cmd["op"] == "clearcache":
+                r = common.in_child(_child_clearcache, w, cmd["user"])
+                rec["out"] = "ok" if r[0] == "ok" else "Other:%s" % (r[1],)
+                if r[0] == "ok":
+                    events = r[1]["events"]
+                rec["caches_left"] = sorted(k for k in w.cache_state() if k.startswith(cmd["user"] + "/"))
             else:
                 h0 = w.tree_hash() if (hash_noaction and cmd.get("noaction")) else None
                 c = dict(cmd)
@@ -637,6 +658,9 @@ def model_request(case, pinned=False, m="c06"):
     for c in case["cmds"]:
         if c["op"] == "rmcache":
             cmds.append({"op": "rmcache", "user": UID[c["user"]], "stack": c["stack"], "flavor": c["flavor"]})
+            continue
+        if c["op"] == "clearcache":
+            cmds.append({"op": "clearcache", "user": UID[c["user"]]})
             continue
         d = {"op": c["op"], "user": UID[c.get("user", "A")], "self": c.get("flavor", "Linux")}
         for k in ("name", "version", "dir", "stack", "tag", "force", "noaction", "vat", "crash", "recursive", "setup", "ext"):
